@@ -22,6 +22,15 @@ def names(pat, text):
     return re.findall(pat, text)
 
 
+def judge(kind, got, want, out):
+    """The property is at stake when two declarations of one scope get the same identifier (the bindings do not
+    compile); names that are distinct but not the model's are a stale model: drift."""
+    if len(set(got)) != len(got):
+        out.append((kind, "duplicate-names:" + ("as-modelled" if got == want else "not-modelled"), got, want))
+    elif got != want:
+        out.append((kind, "DRIFT", got, want))
+
+
 def run(res, tier):
     cfg = "MC_Overloads_6.cfg" if tier == "thorough" else "MC_Overloads.cfg"
     r = C.tlc(os.path.join(BACK, "Overloads.tla"), cfg=cfg, workers=4, timeout=900, name="c01-ovl")
@@ -58,24 +67,13 @@ def run(res, tier):
             if rc != 0:
                 out.append(("method", "generation-failed", se[-300:], None))
             else:
-                got = names(r"pub\s+unsafe\s+fn\s+(\w+)\s*\(\s*&\s*mut\s+self", so)
-                if got != c["methods"]:
-                    out.append(("method", "names-differ-from-model", got, c["methods"]))
-                elif len(set(got)) != len(got):
-                    out.append(("method", "duplicate-names", got, c["methods"]))
-                gote = names(r"pub\s+fn\s+(\w+)\s*\(\s*this\s*:", so)
-                want = ["Chan_" + x for x in c["externs"]]
-                if gote != want:
-                    out.append(("method-extern", "names-differ-from-model", gote, want))
-                elif len(set(gote)) != len(gote):
-                    out.append(("method-extern", "duplicate-names", gote, want))
+                judge("method", names(r"pub\s+unsafe\s+fn\s+(\w+)\s*\(\s*&\s*mut\s+self", so), c["methods"], out)
+                judge("method-extern", names(r"pub\s+fn\s+(\w+)\s*\(\s*this\s*:", so), ["Chan_" + x for x in c["externs"]], out)
             rc, so, se = bindgen(fre)
             if rc != 0:
                 out.append(("function", "generation-failed", se[-300:], None))
             else:
-                got = names(r"pub\s+fn\s+(\w+)\s*\(", so)
-                if got != c["functions"]:
-                    out.append(("function", "names-differ-from-model", got, c["functions"]))
+                judge("function", names(r"pub\s+fn\s+(\w+)\s*\(", so), c["functions"], out)
         except subprocess.TimeoutExpired:
             out.append(("any", "timeout", "", None))
         return c, out
@@ -85,8 +83,11 @@ def run(res, tier):
     bad = 0
     for c, out in outs:
         for kind, what, got, want in out:
+            if what == "DRIFT":
+                res.drift.append("overloaded %s names for %s: the code emits %s, the model %s" % (kind, c["decls"], got, want))
+                continue
             bad += 1
             res.violation("overload-names:%s:%s" % (kind, what), {"decls": c["decls"], "emitted": got, "model": want})
-    res.add(overload_sequences=len(cases), overload_sequences_conform=len(cases) - len({id(c) for c, o in outs if o}))
+    res.add(overload_sequences=len(cases), overload_sequences_conform=sum(1 for c, o in outs if not o))
     res.sample_case({"stage": "overload-names", "decls": cases[-1]["decls"], "methods": cases[-1]["methods"],
                      "functions": cases[-1]["functions"]})
